@@ -67,29 +67,41 @@ type StmtResult struct {
 // PgWorld is one simulated deployment: keystore, token store, proxy settings,
 // database.
 type PgWorld struct {
-	W          *kernel.World
-	DB         *PgDB
-	Disk       *ksw.Disk
-	KS         *ksw.Handle
-	Factory    base.ProxyFactory
-	Schema     config.TableSchemaStore
-	Censor     *acracensor.AcraCensor
-	Poison     *poison.CallbackStorage
-	Tokenizer  tokenCommon.Pseudoanonymizer
-	Panics     []string
-	Stacks     []string
-	runRef     *SessionRunRef
-	delivered  map[string]int
-	chunkMod   int // 0: whole, 1: small chunks, 2: byte by byte
-	maxSteps   int
-	mysql      bool
-	ksWorld    *kernel.World
-	tokenFault *faultyTokenStorage
+	W            *kernel.World
+	DB           *PgDB
+	Disk         *ksw.Disk
+	KS           *ksw.Handle
+	Factory      base.ProxyFactory
+	Schema       config.TableSchemaStore
+	Censor       *acracensor.AcraCensor
+	Poison       *poison.CallbackStorage
+	Tokenizer    tokenCommon.Pseudoanonymizer
+	Panics       []string
+	Stacks       []string
+	runRef       *SessionRunRef
+	delivered    map[string]int
+	chunkMod     int // 0: whole, 1: small chunks, 2: byte by byte
+	maxSteps     int
+	mysql        bool
+	ksWorld      *kernel.World
+	keyFaultArms int
+	tokenFault   *faultyTokenStorage
 	// WriteYield: the proxy's writes become scheduling points (see stream.yield)
 	WriteYield bool
 }
 
 const keyFaultOp = 7777
+
+// ArmKeyFault makes the nth storage call of the key store from now on fail with an I/O error, until DisarmKeyFault.
+func (pw *PgWorld) ArmKeyFault(nth int) {
+	pw.keyFaultArms++
+	id := keyFaultOp + pw.keyFaultArms
+	pw.ksWorld.Plan.Faults = append(pw.ksWorld.Plan.Faults, kernel.Fault{OpID: id, Nth: nth, Kind: kernel.FErr, Arg: 5})
+	pw.ksWorld.BeginOp(0, kernel.Op{ID: id})
+}
+
+// DisarmKeyFault ends the window opened by ArmKeyFault.
+func (pw *PgWorld) DisarmKeyFault() { pw.ksWorld.EndOp(0, "") }
 
 // KeyFaultFired tells whether the armed key store fault was injected.
 func (pw *PgWorld) KeyFaultFired() bool {
